@@ -668,17 +668,43 @@ func c11Plumbing(p *Prog, r *Report, rule string) {
 				return true
 			}
 			n++
+			// decorated(e): e is recv.ctxFn(ctx) — the decorator field is a func(context.Context) context.Context,
+			// whatever its type is called
+			decorated := func(e ast.Expr) bool {
+				ac, ok := ast.Unparen(e).(*ast.CallExpr)
+				if !ok || len(ac.Args) != 1 || objOf(info, ac.Args[0]) != ctxParam {
+					return false
+				}
+				as, ok := ac.Fun.(*ast.SelectorExpr)
+				if !ok {
+					return false
+				}
+				f2, ok := info.Uses[as.Sel].(*types.Var)
+				if !ok || !f2.IsField() {
+					return false
+				}
+				sg, ok := f2.Type().Underlying().(*types.Signature)
+				return ok && sg.Params().Len() == 1 && sg.Results().Len() == 1 &&
+					strings.HasSuffix(sg.Params().At(0).Type().String(), "context.Context") && strings.HasSuffix(sg.Results().At(0).Type().String(), "context.Context")
+			}
 			good := false
 			if len(c.Args) > 0 {
-				if ac, ok := ast.Unparen(c.Args[0]).(*ast.CallExpr); ok && len(ac.Args) == 1 && objOf(info, ac.Args[0]) == ctxParam {
-					if as, ok := ac.Fun.(*ast.SelectorExpr); ok {
-						// the decorator field: a func(context.Context) context.Context, whatever its type is called
-						if f2, ok := info.Uses[as.Sel].(*types.Var); ok && f2.IsField() {
-							if sg, ok := f2.Type().Underlying().(*types.Signature); ok && sg.Params().Len() == 1 && sg.Results().Len() == 1 &&
-								strings.HasSuffix(sg.Params().At(0).Type().String(), "context.Context") && strings.HasSuffix(sg.Results().At(0).Type().String(), "context.Context") {
-								good = true
+				good = decorated(c.Args[0])
+				// `ctx = t.ctxFn(ctx)` once at the top, then the plain variable: every definition that reaches the
+				// call is a decoration and one of them is passed on every path
+				if o := objOf(info, c.Args[0]); !good && o != nil {
+					flat := p.FlatOf(fi)
+					if at := flat.NodeContaining(c); at >= 0 {
+						defs := flat.ReachingDefs(at, o)
+						nodes := map[int]bool{}
+						all := len(defs) > 0
+						for _, d := range defs {
+							nodes[d.Node] = true
+							if d.Rhs == nil || !decorated(d.Rhs) {
+								all = false
 							}
 						}
+						good = all && flat.MustPrecede(nodes, at)
 					}
 				}
 			}
